@@ -74,7 +74,9 @@ def handleSubtype (op : String) (args : List String) : Option String :=
       some (m ++ "\ttrue" ++ tags)
     | _, _, _, _ => none
   | "sub.equal", [e, a, b] => (parseEnvTys e a b).map fun (env, t1, t2) =>
-      showRes (eqAlg env defaultFuel [] t1 t2) ++ "\t-"
+      -- specification column: a definite answer of the mirror decides `TyEq` (`definite_equal_answers_decide_equality`)
+      let r := eqAlg env defaultFuel [] t1 t2
+      showRes r ++ "\t" ++ (match r with | .yes _ => showRes r | .no => showRes r | _ => "-")
   | "sub.seq", [e, ts] =>
     match (Sexp.parse e).bind Env.ofSexp, (Sexp.parse ts).bind tysOfSexp with
     | some env, some tys =>
